@@ -1,6 +1,7 @@
 package main
 
 import (
+	"io"
 	"archive/tar"
 	"bytes"
 	"crypto/sha256"
@@ -344,7 +345,7 @@ func roRun(prop, tier string, c Case, w *Worker) (res Result) {
 		case 3:
 			pa = []string{"", " ", ".", "./"}[r.Intn(4)]
 		}
-		k := []string{"create", "mkdir", "mkdirall", "remove", "removeall", "rename", "chmod", "chown", "chtimes", "symlink", "openfile", "openfile", "openfile", "stat", "stat", "list", "read", "read", "lstat", "readlink"}[r.Intn(20)]
+		k := []string{"create", "mkdir", "mkdirall", "remove", "removeall", "rename", "chmod", "chown", "chtimes", "symlink", "openfile", "openfile", "openfile", "stat", "stat", "list", "read", "read", "lstat", "readlink", "hreads", "hreads"}[r.Intn(22)]
 		kinds[k] = true
 		var okc bool
 		switch k {
@@ -486,6 +487,87 @@ func roRun(prop, tier string, c Case, w *Worker) (res Result) {
 				return
 			}
 			res.count("read_calls", 1)
+		case "hreads":
+			// one handle driven through a sequence of read-side calls in any order (forwards, backwards, positioned), then closed:
+			// every result equals the twin's, and - like after every call - tape and index rows are what they were
+			okc = true
+			if e := ttree[cleanAbs(pa)]; e.Kind != "f" || cached {
+				break
+			}
+			size := ttree[cleanAbs(pa)].Size
+			ha, ea := ro.FS.Open(pa)
+			hb, eb := tw.FS.Open(pa)
+			calls = append(calls, fmt.Sprintf("Open(%q)", pa))
+			if (ea == nil) != (eb == nil) {
+				viol("read-differs|open", "Open: read-only err=%v, writable twin err=%v", ea, eb)
+				return
+			}
+			if ea != nil {
+				break
+			}
+			offs := func() int64 { return []int64{0, 0, 1, size / 2, size - 1, size}[r.Intn(6)] }
+			lens := func() int { return []int{1, 7, 512, int(size/2) + 1, int(size), int(size) + 5}[r.Intn(6)] }
+			for j, nst := 0, 3+r.Intn(6); j < nst; j++ {
+				var da, db string
+				switch r.Intn(7) {
+				case 0, 1:
+					n := lens()
+					ba, bb := make([]byte, n), make([]byte, n)
+					na, e1 := ha.Read(ba)
+					nb, e2 := hb.Read(bb)
+					calls = append(calls, fmt.Sprintf("handle.Read(%d)", n))
+					da, db = fmt.Sprintf("%d %s %v", na, sum(ba[:max(na, 0)]), e1), fmt.Sprintf("%d %s %v", nb, sum(bb[:max(nb, 0)]), e2)
+				case 2, 3:
+					o := offs()
+					if o < 0 {
+						o = 0
+					}
+					pa2, e1 := ha.Seek(o, io.SeekStart)
+					pb2, e2 := hb.Seek(o, io.SeekStart)
+					calls = append(calls, fmt.Sprintf("handle.Seek(%d,0)", o))
+					da, db = fmt.Sprintf("%d %v", pa2, e1), fmt.Sprintf("%d %v", pb2, e2)
+				case 4, 5:
+					n, o := lens(), offs()
+					if o < 0 {
+						o = 0
+					}
+					ba, bb := make([]byte, n), make([]byte, n)
+					na, e1 := ha.ReadAt(ba, o)
+					nb, e2 := hb.ReadAt(bb, o)
+					calls = append(calls, fmt.Sprintf("handle.ReadAt(%d,%d)", n, o))
+					da, db = fmt.Sprintf("%d %s %v", na, sum(ba[:max(na, 0)]), e1), fmt.Sprintf("%d %s %v", nb, sum(bb[:max(nb, 0)]), e2)
+				case 6:
+					ia, e1 := ha.Stat()
+					ib, e2 := hb.Stat()
+					calls = append(calls, "handle.Stat")
+					if e1 == nil && e2 == nil {
+						da, db = fmt.Sprint(ia.Size()), fmt.Sprint(ib.Size())
+					} else {
+						da, db = fmt.Sprint(e1), fmt.Sprint(e2)
+					}
+				}
+				if da != db {
+					viol("read-differs|handle", "call %s on a handle of %q: read-only [%s], writable twin [%s]", calls[len(calls)-1], pa, da, db)
+					ha.Close()
+					hb.Close()
+					return
+				}
+				res.count("handle_read_calls", 1)
+			}
+			if r.Intn(2) == 0 {
+				_ = ha.Sync()
+				_ = hb.Sync()
+				calls = append(calls, "handle.Sync")
+			}
+			e1, e2 := ha.Close(), hb.Close()
+			calls = append(calls, "handle.Close")
+			ro.LocksSettled()
+			tw.LocksSettled()
+			if (e1 == nil) != (e2 == nil) {
+				viol("read-differs|close", "Close of a read handle: read-only err=%v, writable twin err=%v", e1, e2)
+				return
+			}
+			res.count("handle_read_sequences", 1)
 		case "lstat":
 			calls = append(calls, fmt.Sprintf("Lstat(%q)", pa))
 			_, _, ea := roLinks.(afero.Lstater).LstatIfPossible(pa)
@@ -593,6 +675,6 @@ func listNames(f afero.Fs, p string) ([]string, error) {
 func init() {
 	register(&Engine{Name: "readonly", Props: []string{"C15"}, Cases: roCases, Run: roRun})
 	propMeta["C15"] = PropMeta{Level: "exploration",
-		Rule:        "per case a tape+index is populated by a generated history through a writable instance; a read-only instance (variant A: write backend and cache factory present, variant B: none, as `serve http` composes it; every fifth case without an index so that it is built on open) and a writable twin are opened over copies; then 20-60 random calls mixing every mutating method, OpenFile with every flag combination followed by Write/WriteAt/WriteString/Truncate on the handle, and read calls; after every call sha-256(tape) and the full row dump are compared with their values after Initialize, mutators must fail with a permission error, read results must equal the twin's; non-trivial = at least 3 entries on the tape and at least 10 mutating calls; distinct = distinct (configuration, variant, call list); argument shapes include '', ' ', '.', './' as names (also as second argument of Rename / Symlink); a fifth of the cases open over an index that is OLDER than the tape (it reflects only the first half of the records): such an index must be left exactly as it is (rows compared from before the open); plain tapes carry two members whose recorded logical size disagrees with their content; two fifths of the read-only instances sit behind the memory / directory caching composition (there: every mutating call must fail, kind / size / content compared with the twin)",
+		Rule:        "per case a tape+index is populated by a generated history through a writable instance; a read-only instance (variant A: write backend and cache factory present, variant B: none, as `serve http` composes it; every fifth case without an index so that it is built on open) and a writable twin are opened over copies; then 20-60 random calls mixing every mutating method, OpenFile with every flag combination followed by Write/WriteAt/WriteString/Truncate on the handle, and read calls; after every call sha-256(tape) and the full row dump are compared with their values after Initialize, mutators must fail with a permission error, read results must equal the twin's; non-trivial = at least 3 entries on the tape and at least 10 mutating calls; distinct = distinct (configuration, variant, call list); argument shapes include '', ' ', '.', './' as names (also as second argument of Rename / Symlink); a fifth of the cases open over an index that is OLDER than the tape (it reflects only the first half of the records): such an index must be left exactly as it is (rows compared from before the open); plain tapes carry two members whose recorded logical size disagrees with their content; two fifths of the read-only instances sit behind the memory / directory caching composition (there: every mutating call must fail, kind / size / content compared with the twin); 2 calls in 22 drive ONE read handle through 3-8 read-side calls in any order (Read, Seek from start, ReadAt, Stat; lengths and offsets around 0, the middle and the end of the file; forwards and backwards), optionally Sync, then Close - every result equals the same sequence on the twin's handle, and tape hash and index rows are compared afterwards like after every call",
 		Assumptions: []string{"building a missing index during Initialize is the permitted change; the tape hash is pinned across it too", "OpenFile of a missing path must fail (any error class) and create nothing"}}
 }
